@@ -391,40 +391,49 @@ func adjacentQuadrantY(quadrantI int) int {
 	return quadrantI ^ 0b10
 }
 
-// lineIntersects tests whether a line intersects with an extent.
-// TODO this can probably be faster by reusing the edges for the other three quadrants and/or only testing relevant edges (hints)
+// lineIntersects tests whether a (closed) line intersects with an extent of which the right and top edges are exclusive.
+// It is exact: the part of the line inside the extent is determined per axis as an interval of the line's parameter t
+// (0 at the first point, 1 at the second), the bounds being fractions with strictness flags. The line intersects
+// the extent if and only if every lower bound on t is compatible with every upper bound.
 func lineIntersects(intLine intgeom.Line, intExtent intgeom.Extent) bool {
-	// First see if a point is inside (cheap test).
-	pt1IsInsideQuadrant := containsPoint(intLine[0], intExtent)
-	pt2IsInsideQuadrant := containsPoint(intLine[1], intExtent)
-	if pt1IsInsideQuadrant || pt2IsInsideQuadrant {
-		return true
-	}
-
-	for edgeI, intEdge := range intExtent.Edges(nil) {
-		intersection, intersects := intgeom.SegmentIntersect(intLine, intEdge)
-		// Checking for intersection cq crossing is not enough. The right and top edges are exclusive.
-		// So there are exceptions ...:
-		if intersects { //nolint:nestif
-			if isExclusiveEdge(edgeI) {
-				if intLine[0] == intersection || intLine[1] == intersection {
-					// The tip of a line coming from the outside touches the (exclusive) edge.
-					continue
-				}
-			} else {
-				// The tip of a line coming from the outside touches the exclusive tip of an inclusive edge.
-				exclusivePoint := getExclusiveTip(edgeI, intEdge)
-				if intLine[0] == exclusivePoint || intLine[1] == exclusivePoint {
-					continue
-				}
+	lowers := [3]tBound{{num: 0, den: 1}}
+	uppers := [3]tBound{{num: 1, den: 1}}
+	n := 1
+	for ax := 0; ax < 2; ax++ {
+		p := intLine[0][ax]
+		d := intLine[1][ax] - p
+		minOrd, maxOrd := intExtent[ax], intExtent[ax+2]
+		switch {
+		case d == 0:
+			if p < minOrd || p >= maxOrd {
+				return false
 			}
-			return true
-		} else if !isExclusiveEdge(edgeI) && lineOverlapsInclusiveEdge(intLine, edgeI, intEdge) {
-			// No intersection but overlap on an inclusive edge.
-			return true
+			continue
+		case d > 0:
+			lowers[n] = tBound{num: minOrd - p, den: d}
+			uppers[n] = tBound{num: maxOrd - p, den: d, exclusive: true}
+		default:
+			lowers[n] = tBound{num: p - maxOrd, den: -d, exclusive: true}
+			uppers[n] = tBound{num: p - minOrd, den: -d}
+		}
+		n++
+	}
+	for _, lower := range lowers[:n] {
+		for _, upper := range uppers[:n] {
+			// lower.num/lower.den <(=) upper.num/upper.den, denominators are positive
+			c := mathhelp.CmpProducts(lower.num, upper.den, upper.num, lower.den)
+			if c > 0 || (c == 0 && (lower.exclusive || upper.exclusive)) {
+				return false
+			}
 		}
 	}
-	return false
+	return true
+}
+
+// tBound is a bound num/den (den > 0) on the parameter t of a line
+type tBound struct {
+	num, den  int64
+	exclusive bool
 }
 
 func (ix *PointIndex) GetHitMultiple(l Level) map[intgeom.Point][]int {
@@ -446,48 +455,6 @@ func checkPointHits(ix *PointIndex, vertex intgeom.Point, ringID int, level uint
 		// first hit of this point by any ring
 		levelHitOnce[vertex] = append(levelHitOnce[vertex], ringID)
 	}
-}
-
-func isExclusiveEdge(edgeI int) bool {
-	i := edgeI % 4
-	return i == 1 || i == 2
-}
-
-// getExclusiveTip returns the tip point of an inclusive edge that is not-inclusive
-func getExclusiveTip(edgeI int, edge intgeom.Line) intgeom.Point {
-	i := edgeI % 4
-	if i == 0 {
-		return edge[1]
-	} else if i == 3 {
-		return edge[0]
-	}
-	panic(fmt.Sprintf("not an inclusive edge: %v", edgeI))
-}
-
-// lineOverlapsInclusiveEdge helps to check if a line overlaps an inclusive edge (excluding the exclusive tip)
-func lineOverlapsInclusiveEdge(intLine intgeom.Line, edgeI int, intEdge intgeom.Line) bool {
-	var constAx, varAx int
-	switch {
-	case intEdge[0][xAx] == intEdge[1][xAx]:
-		constAx = xAx
-		varAx = yAx
-	case intEdge[0][yAx] == intEdge[1][yAx]:
-		constAx = yAx
-		varAx = xAx
-	default:
-		panic(fmt.Sprintf("not a straight edge: %v", intEdge))
-	}
-	eConstOrd := intEdge[0][constAx]
-	if intLine[0][constAx] != eConstOrd || intLine[1][constAx] != eConstOrd {
-		return false // not a straight line and/or not on same line as the edge, so no overlap
-	}
-	eOrd1 := intEdge[0][varAx]
-	eOrd2 := intEdge[1][varAx]
-
-	exclusiveTip := getExclusiveTip(edgeI, intEdge)
-	lOrd1 := intLine[0][varAx]
-	lOrd2 := intLine[1][varAx]
-	return lOrd1 != lOrd2 && (mathhelp.IBetweenInc(lOrd1, eOrd1, eOrd2) && intLine[0] != exclusiveTip || mathhelp.IBetweenInc(lOrd2, eOrd1, eOrd2) && intLine[1] != exclusiveTip)
 }
 
 func oneIfRight(quadrantI int) int {
